@@ -600,7 +600,9 @@ _PLAYBACK_START_RE = re.compile(r'^Concrete playback unit test for `([^`]+)`:\s*
 
 
 def extract_playback_tests(log_text):
-    """[(harness pretty name, test source text, test fn name, [[bytes]...])]"""
+    """[(harness pretty name, test source text, test fn name, [[bytes]...],
+    check kind, check description)] - Kani emits one test per failed check
+    AND one per satisfied cover."""
     out = []
     lines = log_text.split('\n')
     i = 0
@@ -624,7 +626,10 @@ def extract_playback_tests(log_text):
         for mv in re.finditer(r'^\s*vec!\[([0-9,\s]*)\],?\s*$', src, re.M):
             inner = mv.group(1).strip()
             vals.append([int(x) for x in inner.split(',') if x.strip()] if inner else [])
-        out.append((m.group(1), src, mf.group(1) if mf else None, vals))
+        mc = re.search(r'^/// Check for `([^`]*)`: (.*)$', src, re.M)
+        kind = mc.group(1) if mc else ''
+        desc = _unquote(mc.group(2).strip()) if mc else ''
+        out.append((m.group(1), src, mf.group(1) if mf else None, vals, kind, desc))
         i = k + 1
     return out
 
@@ -639,6 +644,32 @@ def decode_values(byte_vectors):
             n |= (b & 0xff) << (8 * i)
         out.append({'bytes': v, 'width_bits': 8 * len(v), 'unsigned': n, 'hex': '0x%x' % n})
     return out
+
+
+def label_values(stage_dir, name, values, known=None):
+    """Name the decoded values where that is safe: if the harness calls
+    `reset_symbolic()` before any other `kani::any`, the first values are the
+    fields of `Machine::symbolic()` in the order written in src/verif_hw.rs."""
+    known = known or staged_harnesses(stage_dir)
+    try:
+        with open(os.path.join(stage_dir, 'src', 'verif_hw.rs'), encoding='utf-8') as f:
+            hw = f.read()
+        body = hw[hw.index('pub fn symbolic() -> Machine'):]
+        body = body[:body.index('\n    }\n')]
+        fields = re.findall(r's\.(\w+) = kani::any\(\);', body)
+        with open(known[name]['file'], encoding='utf-8') as f:
+            htxt = f.read()
+        m = re.search(r'fn\s+%s\s*\(\s*\)\s*\{' % re.escape(name), htxt)
+        rest = htxt[m.end():]
+        first_reset = rest.find('reset_symbolic()')
+        first_any = rest.find('kani::any')
+    except (OSError, ValueError, KeyError, AttributeError):
+        return values
+    if first_reset < 0 or (0 <= first_any < first_reset) or len(values) < len(fields):
+        return values
+    for i, v in enumerate(values):
+        v['label'] = ('machine.' + fields[i]) if i < len(fields) else 'harness/any#%d' % (i - len(fields))
+    return values
 
 
 def playback(stage_dir, name, timeout_s=600, target_dir=DEFAULT_TARGET_DIR, run_native=True, log_dir=None):
@@ -675,9 +706,17 @@ def playback(stage_dir, name, timeout_s=600, target_dir=DEFAULT_TARGET_DIR, run_
                    reason=('harness verifies; no counterexample to play back' if ok else
                            'no concrete playback test in the output'))
         return res
-    pretty, src, tname, vals = tests[0]
-    res.update(status=FAILURE, test_name=tname, test_source=src, values=decode_values(vals),
-               pretty_name=pretty, n_tests=len(tests))
+    res['tests'] = [{'test_name': t[2], 'check_kind': t[4], 'check': t[5]} for t in tests]
+    failing = [t for t in tests if t[4] != 'cover']
+    if not failing:
+        ok = re.search(r'VERIFICATION:- SUCCESSFUL', text)
+        res.update(status=(SUCCESS if ok else ERROR),
+                   reason='only cover witnesses were generated; no failing check to play back')
+        return res
+    pretty, src, tname, vals, kind, desc = failing[0]
+    res.update(status=FAILURE, test_name=tname, test_source=src,
+               values=label_values(stage_dir, name, decode_values(vals), known),
+               pretty_name=pretty, n_tests=len(tests), check=desc, check_kind=kind)
     mfail = re.findall(r'Failed Checks: (.*)', text)
     res['failed_checks'] = [_unquote(x.strip()) for x in mfail]
 
@@ -701,11 +740,13 @@ def playback(stage_dir, name, timeout_s=600, target_dir=DEFAULT_TARGET_DIR, run_
         with open(hfile, 'w', encoding='utf-8') as f:
             f.write(htxt)
     nat_log = os.path.join(log_dir, 'playback-native.log')
-    cmd2 = ['cargo', 'kani', 'playback', '-Z', 'concrete-playback', '--target-dir', target_dir,
+    cmd2 = ['cargo', 'kani', 'playback', '-Z', 'concrete-playback',
             '--no-default-features', '--features', 'instructions,abi_x86_interrupt', '--lib',
             '--', tname, '--nocapture', '--test-threads=1']
     with _DirLock(target_dir):
-        rc2, wall2 = _run_group(cmd2, stage_dir, nat_log, timeout_s + 300)
+        # `cargo kani playback` has no --target-dir; cargo honours the environment
+        rc2, wall2 = _run_group(cmd2, stage_dir, nat_log, timeout_s + 300,
+                                env={'CARGO_TARGET_DIR': os.path.join(target_dir, 'playback')})
     with open(nat_log, encoding='utf-8', errors='replace') as f:
         ntext = f.read()
     native = {'ran': True, 'returncode': rc2, 'seconds': round(wall2, 2), 'log': nat_log, 'cmd': cmd2}
@@ -772,7 +813,7 @@ def main(argv):
         if res.get('test_source'):
             print(res['test_source'])
             for i, v in enumerate(res['values']):
-                print('  value %d: %d bits = %s' % (i, v['width_bits'], v['hex']))
+                print('  value %d: %d bits = %s  %s' % (i, v['width_bits'], v['hex'], v.get('label', '')))
             print('native:', json.dumps(res['native'], indent=1))
     return 0
 
